@@ -1,5 +1,3 @@
-//go:build wip_c18
-
 package kit
 
 // Witness search: evaluate a function under a small, directed family of
